@@ -108,7 +108,7 @@ struct Attrs : Profile {
     {
         return {"replace", "replace-type-change", "large-attr", "prefix-names", "dim-attr", "dimscale", "cal", "range", "datastrs",
                 "gr-attr", "vs-attr", "vsfield-attr", "vg-attr", "restart", "restart-write", "dim-renamed-with-metadata", "dimscale-retype-refused",
-                "dimscale-retype-accepted", "dimname-prefix-family", "dimname-word-permutation-pair", "shared-dimension", "shared-dimension-first", "unnamed-dimension-in-later-session", "dimname-conflict-refused"};
+                "dimscale-retype-accepted", "dimname-prefix-family", "dimname-word-permutation-pair", "shared-dimension", "shared-dimension-first", "unnamed-dimension-in-later-session", "dimname-conflict-refused", "dimscale-wrong-count-refused"};
     }
 
     Plan generate(Rng &rng, bool thorough, uint64_t) override
@@ -846,6 +846,18 @@ struct Attrs : Profile {
                             std::vector<uint8_t> v((size_t)d.dims[dn] * (size_t)ATS[snt].size);
                             for (int32 q = 0; q < d.dims[dn]; q++)
                                 avalue(ATS[snt], (uint64_t)o.arg(3), (uint64_t)q, v.data() + (size_t)q * (size_t)ATS[snt].size);
+                            if (modn(o.arg(3), 5) == 0) {
+                                // a scale with one value too many: refused, and the dimension keeps the scale (or the lack of
+                                // one), its type and its values -- the checks after this call see to that
+                                std::vector<uint8_t> w((size_t)(d.dims[dn] + 1) * (size_t)ATS[snt].size, 3);
+                                if (SDsetdimscale(dim, d.dims[dn] + 1, ATS[snt].code, w.data()) != FAIL)
+                                    ctx.fail("meta-accepted", "meta-accepted:dimscale-count", strf("SDsetdimscale with %d values for a dimension of size %d succeeds", (int)d.dims[dn] + 1, (int)d.dims[dn]));
+                                ctx.probe("dimscale-wrong-count-refused");
+                                SDendaccess(id);
+                                check_sds_meta(s, di, "right after a refused SDsetdimscale");
+                                ctx.st.ops_done++;
+                                continue;
+                            }
                             bool retype = d.scale[dn] && d.scale_nt[dn] != snt; // used to be guarded: repaired (findings/fixed)
                             intn rc = SDsetdimscale(dim, d.dims[dn], ATS[snt].code, v.data());
                             if (rc == FAIL && !(d.scale[dn] && d.scale_nt[dn] != snt))
